@@ -202,6 +202,15 @@ func (s *Sim) setupEnv() {
 		case 2:
 			hopts = append(hopts, httpgrpc.ErrorRenderer(func(ctx context.Context, st *status.Status, w http.ResponseWriter) {}))
 		}
+		func() {
+			// registering under a base path the mux cannot express must not crash the application
+			defer func() {
+				if p := recover(); p != nil {
+					s.violate("C12", fmt.Sprintf("C12|http|registration-panics|base=%s", baseShape(base)), -1,
+						"registering the services under base path %q (HandleServices=%v) panicked: %v", base, cfg.UseHandle, p)
+					handler = http.NotFoundHandler()
+				}
+			}()
 		if cfg.UseHandle {
 			reg := grpchan.HandlerMap{}
 			register(reg)
@@ -223,6 +232,7 @@ func (s *Sim) setupEnv() {
 			register(srv)
 			handler = srv
 		}
+		}()
 		e.ln = newListener(&net.TCPAddr{IP: net.IPv4(10, 0, 0, 2), Port: 80})
 		e.hs = &http.Server{Handler: handler, ErrorLog: log.New(lockedWriter{e}, "", 0)}
 		scheme := "http"
@@ -339,6 +349,17 @@ func (s *Sim) serverUnaryInt(layer string) grpc.UnaryServerInterceptor {
 
 func (s *Sim) serverStreamInt(layer string) grpc.StreamServerInterceptor {
 	return func(srv any, ss grpc.ServerStream, info *grpc.StreamServerInfo, handler grpc.StreamHandler) error {
+		if strings.HasPrefix(info.FullMethod, scribbledMethod) {
+			// what an interceptor of an earlier call wrote into *its* info
+			s.violate("C16", "C16|interceptor-info-shared-across-calls|"+layerKind(layer), -1,
+				"stream interceptor %q was given FullMethod=%q IsClientStream=%v IsServerStream=%v: the per-call information another call's interceptor modified after its handler had returned", layer, info.FullMethod, info.IsClientStream, info.IsServerStream)
+		}
+		// "All per-rpc information may be mutated by the interceptor" (grpc):
+		// this one does, once its part of the call is over
+		defer func() {
+			info.FullMethod = scribbledMethod + layer
+			info.IsClientStream, info.IsServerStream = !info.IsClientStream, !info.IsServerStream
+		}()
 		id := -1
 		if rs := s.rpcByFullMethod(info.FullMethod, ss.Context()); rs != nil {
 			id = rs.r.ID
@@ -356,6 +377,15 @@ func (s *Sim) serverStreamInt(layer string) grpc.StreamServerInterceptor {
 		})
 		return err
 	}
+}
+
+const scribbledMethod = "/scribbled.by.an.earlier.call/"
+
+func layerKind(layer string) string {
+	if i := strings.IndexAny(layer, "0123456789"); i > 0 {
+		return layer[:i]
+	}
+	return layer
 }
 
 // ---------------------------------------------------------------------------
